@@ -518,7 +518,7 @@ def compare(real, model_answer):
 # ---------------------------------------------------------------- the case space
 
 NUM = ["2", "4", "5", "-6"]  # 1, 2, 2.5, -3
-STR = ["200001", "200003", "200005"]  # "a", "b", "foo"
+STR = [str(lift.STR_BASE + lift.STR_POOL.index(x)) for x in ("a", "b", "foo")]
 
 
 def atoms(sort):
@@ -543,9 +543,9 @@ def atoms(sort):
 def extra_atoms():
     """Constants outside the sorted grids (only ever alone or with show_optimized off)."""
     big = tuple(str(2 * k) for k in range(1, 13))  # 1 .. 12
-    return [("eq", "100000"), ("ne", "100000"), ("eq", "200000"), ("in", "200001", "2", "5"), ("notin", "100000", "2"), ("gele", "200001", "200003"), ("eq", "3"), ("ge", "-1"),
+    return [("eq", "100000"), ("ne", "100000"), ("eq", "200000"), ("in", STR[0], "2", "5"), ("notin", "100000", "2"), ("gele", STR[0], STR[1]), ("eq", "3"), ("ge", "-1"),
             ("in", *big[:7]), ("in", *big), ("notin", *big[:8]), ("subset", *big[:9]), ("rsubset", *big), ("superset", *big[:7]), ("rsuperset", *big[:10]),
-            ("in", "200001", "200003", "200005", "2", "4", "6", "8", "10")]
+            ("in", STR[0], STR[1], STR[2], "2", "4", "6", "8", "10")]
 
 
 def unknown_atoms():
